@@ -803,8 +803,15 @@ func ebody(id int) []byte {
 	return b
 }
 
+type egroup struct {
+	id, run, me int // me: roster position of the caller
+	how         string
+	ks          []int // multicast: the listed nodes' positions
+}
+
 type e2eLog struct {
 	sync.Mutex
+	groups []egroup
 	big     int
 	corrupt int
 	insts []*eproto
@@ -859,6 +866,41 @@ func (p *eproto) send(run int, to *onet.TreeNode) {
 	}
 }
 
+// sendMany sends ONE message to several nodes through the group calls of the API (Broadcast: every
+// node of the tree but the caller; Multicast: the listed nodes; SendToParent); every destination
+// must get it exactly once.
+func (p *eproto) sendMany(run int, how string, tos []*onet.TreeNode) {
+	id := int(atomic.AddInt64(&elog.ctr, 1))
+	g := egroup{id: id, run: run, me: p.TreeNode().RosterIndex, how: how}
+	elog.Lock()
+	for _, to := range tos {
+		elog.sent = append(elog.sent, [2]int{id, run*100 + p.nodeIndex(to)})
+		if how == "multicast" {
+			g.ks = append(g.ks, to.RosterIndex)
+		}
+	}
+	sort.Ints(g.ks)
+	elog.groups = append(elog.groups, g)
+	elog.Unlock()
+	msg := &EPing{ID: id, Run: run, Dest: -1, Body: ebody(id)}
+	var errs []error
+	switch how {
+	case "broadcast":
+		errs = p.Broadcast(msg)
+	case "multicast":
+		errs = p.Multicast(msg, tos...)
+	case "parent":
+		if err := p.SendToParent(msg); err != nil {
+			errs = append(errs, err)
+		}
+	}
+	if len(errs) > 0 {
+		elog.Lock()
+		elog.bad += len(errs)
+		elog.Unlock()
+	}
+}
+
 func (p *eproto) traffic(run int) {
 	if err := p.SendToChildren(&Go{Run: run}); err != nil {
 		elog.Lock()
@@ -867,18 +909,34 @@ func (p *eproto) traffic(run int) {
 	}
 	if !p.IsRoot() {
 		p.send(run, p.Parent())
+		p.sendMany(run, "parent", []*onet.TreeNode{p.Parent()})
 	}
 	for _, c := range p.Children() {
 		p.send(run, c)
 	}
 	l := p.List()
 	me := p.nodeIndex(p.TreeNode())
+	var some []*onet.TreeNode
 	for j := 0; j < 2; j++ {
 		k := (me*7 + run*3 + j*5 + int(elog.seed%11)) % len(l)
 		if k != me {
 			p.send(run, l[k])
+			if len(some) == 0 || !some[0].ID.Equal(l[k].ID) {
+				some = append(some, l[k])
+			}
 		}
 	}
+	if len(some) > 0 {
+		p.sendMany(run, "multicast", some)
+	}
+	// every node of every run broadcasts once: root, inner nodes and leaves
+	var others []*onet.TreeNode
+	for i, n := range l {
+		if i != me {
+			others = append(others, n)
+		}
+	}
+	p.sendMany(run, "broadcast", others)
 }
 
 func (p *eproto) handleGo(m struct {
@@ -982,7 +1040,29 @@ func runE2E(in input) lib.Case {
 	}
 	sort.Slice(sent, less(sent))
 	sort.Slice(recv, less(recv))
-	coq := fmt.Sprintf("CE2E %s %s", lib.PairList(sent), lib.PairList(recv))
+	// per group send: who received that message, by roster position (= breadth-first position in
+	// the generated n-ary tree)
+	list := tree.List()
+	elog.Lock()
+	groups := append([]egroup(nil), elog.groups...)
+	elog.Unlock()
+	sort.Slice(groups, func(i, j int) bool { return groups[i].id < groups[j].id })
+	var gs []string
+	for _, g := range groups {
+		var got []int
+		for _, r := range recv {
+			if r[0] == g.id && r[1]/100 == g.run && r[1]%100 < len(list) {
+				got = append(got, list[r[1]%100].RosterIndex)
+			}
+		}
+		sort.Ints(got)
+		h := map[string]string{"broadcast": "HBroadcast", "parent": "HParent"}[g.how]
+		if g.how == "multicast" {
+			h = "(HMulticast " + lib.NatList(g.ks) + ")"
+		}
+		gs = append(gs, fmt.Sprintf("(%d, %d, %d, %s, %s)", in.BF, len(list), g.me, h, lib.NatList(got)))
+	}
+	coq := fmt.Sprintf("CE2E %s %s %s", lib.PairList(sent), lib.PairList(recv), lib.List(gs))
 	obs := map[string]interface{}{"sent": len(sent), "received": len(recv), "send_errors": bad}
 	return lib.Case{Coq: coq, Class: class, Obs: obs, Nontrivial: len(sent) > 3,
 		Key: fmt.Sprint(in.Servers, in.Runs, in.BF, in.TCP, in.Seed)}
@@ -1119,7 +1199,7 @@ func runStress(in input) lib.Case {
 	}
 	sort.Slice(sent, less(sent))
 	sort.Slice(recvB, less(recvB))
-	coq := fmt.Sprintf("CE2E %s %s", lib.PairList(sent), lib.PairList(recvB))
+	coq := fmt.Sprintf("CE2E %s %s []", lib.PairList(sent), lib.PairList(recvB))
 	obs := map[string]interface{}{"backlog": backlog, "backlog_delivered": nA, "sent_B": len(sentB), "received_B": len(recvB),
 		"still_parked": len(ov.VerifPending()), "flush_did_not_finish": flushHung}
 	return lib.Case{Coq: coq, Class: in.Name, Obs: obs, Nontrivial: len(sentB) > 3, Key: fmt.Sprint(in.Seed, in.Runs, in.Servers)}
@@ -1227,7 +1307,7 @@ func runFlushFail(in input) lib.Case {
 	}
 	sort.Slice(sent, less(sent))
 	sort.Slice(recv, less(recv))
-	coq := fmt.Sprintf("CE2E %s %s", lib.PairList(sent), lib.PairList(recv))
+	coq := fmt.Sprintf("CE2E %s %s []", lib.PairList(sent), lib.PairList(recv))
 	obs := map[string]interface{}{"parked": shape, "sent": len(sent), "received": len(recv), "still_parked": len(ov.VerifPending()),
 		"flush_finished": ok}
 	return lib.Case{Coq: coq, Class: in.Name, Obs: obs, Nontrivial: len(sent) > 1, Key: fmt.Sprint(in.Seed)}
